@@ -1,7 +1,138 @@
 import ConfModel.Driver.Common
+import ConfModel.Model.Echo
+import ConfModel.Spec.Agree
 namespace ConfModel.Driver.C02
-open Lean ConfModel.Driver
+open Lean ConfModel.Driver ConfModel.Echo
 
-def handle : Handler := fun op _inp _impl => bad ("C02: unknown op " ++ op)
+def hdrs (j : Json) : List Hdr := (arr j).map (fun h => ⟨str (field h "n"), strList (field h "v")⟩)
+
+def errIn (j : Json) : Option Err :=
+  if isNull j then none else
+    some ⟨nat (field j "code"), (if isNull (field j "msg") then none else some (str (field j "msg"))),
+          (natList (field j "details")).map Detail.other⟩
+
+def stOf : String → ST
+  | "unary" => .unary | "clientStream" => .clientStream | "serverStream" => .serverStream
+  | "halfDuplex" => .halfDuplex | _ => .fullDuplex
+
+def tcOf (j : Json) : TC :=
+  let st := stOf (str (field j "st"))
+  let d := field j "def"
+  let hasDef := bool (field j "hasDef")
+  let dh := hdrs (field d "hdrs")
+  let dt := hdrs (field d "trls")
+  let data := strList (field d "data")
+  let kind := str (field d "kind")
+  let udef : Option UnaryDef :=
+    if hasDef && (st == .unary || st == .clientStream) then
+      some ⟨dh, dt, match kind with
+        | "data" => .data (data.headD "")
+        | "error" => (match errIn (field d "err") with | some e => .error e | none => .none)
+        | _ => .none⟩
+    else none
+  let sdef : Option StreamDef :=
+    if hasDef && !(st == .unary || st == .clientStream) then some ⟨dh, dt, data, errIn (field d "err")⟩ else none
+  { st := st, reqHdrs := hdrs (field j "reqHdrs"), reqs := natList (field j "reqs"), udef := udef, sdef := sdef,
+    fdFlag := bool (field j "fdFlag") }
+
+def infoOf (j : Json) : Option ReqInfo :=
+  if isNull j then none else some ⟨hdrs (field j "hdrs"), (intList (field j "reqs")).map (fun i => if i < 0 then 1000000 else i.toNat)⟩
+
+def detailOf (j : Json) : Detail :=
+  if !(isNull (field j "info")) then .info ((infoOf (field j "info")).getD ⟨[], []⟩)
+  else .other (let i := int (field j "other"); if i < 0 then 1000000 else i.toNat)
+
+def errOut (j : Json) : Option Err :=
+  if isNull j then none else
+    some ⟨nat (field j "code"), (if isNull (field j "msg") then none else some (str (field j "msg"))),
+          (arr (field j "details")).map detailOf⟩
+
+def resultOf (j : Json) : Result :=
+  ⟨hdrs (field j "hdrs"), hdrs (field j "trls"),
+   (arr (field j "payloads")).map (fun p => ⟨str (field p "data"), infoOf (field p "info")⟩), errOut (field j "err")⟩
+
+def hdrJ (h : Hdr) : Json := Json.mkObj [("n", h.name), ("v", toJson h.vals)]
+def infoJ : Option ReqInfo → Json
+  | none => Json.null
+  | some ri => Json.mkObj [("hdrs", Json.arr (ri.hdrs.map hdrJ).toArray), ("reqs", toJson ri.reqs)]
+def resultJ (r : Result) : Json :=
+  Json.mkObj [("hdrs", Json.arr (r.hdrs.map hdrJ).toArray), ("trls", Json.arr (r.trls.map hdrJ).toArray),
+    ("payloads", Json.arr (r.payloads.map (fun p => Json.mkObj [("data", p.data), ("info", infoJ p.info)])).toArray),
+    ("err", match r.err with
+      | none => Json.null
+      | some e => Json.mkObj [("code", e.code), ("msg", match e.msg with | some m => Json.str m | none => Json.null),
+          ("details", Json.arr (e.details.map (fun d => match d with
+            | .other i => Json.mkObj [("other", i)]
+            | .info ri => Json.mkObj [("info", infoJ (some ri))])).toArray)])]
+
+/-- the identity transport (the model's own rendering of what the peers deliver) -/
+def idWire (tc : TC) : Wire := ⟨tc.reqHdrs, id, id, fun h t => mergeHeaders h t⟩
+
+def judgeE2E (inp impl : Json) : Verdict :=
+    if !(isNull (field impl "panic")) then
+      { agree := false, holds := false, why := "panic during the run: " ++ str (field impl "panic") } else
+    let cases := (arr (field inp "cases")).map tcOf
+    let perms := arr (field impl "perms")
+    let wf := cases.all (fun tc => WellFormed tc)
+    -- property: every permutation of every well-formed case passes
+    let failing0 := perms.filter (fun p => str (field p "verdict") != "pass")
+    -- known finding F22 (schedule-dependent): the grpc-go reference server behind the grpc-web
+    -- wrapper over HTTP/1.1 intermittently fails a call with "http: invalid Read on closed Body"
+    let isF22 (p : Json) : Bool :=
+      let n := str (field p "name")
+      (n.splitOn "HTTPVersion:1/Protocol:PROTOCOL_GRPC_WEB/").length > 1 && (n.splitOn "(grpc server impl)").length > 1 &&
+        ((str (field p "why")).splitOn "http: invalid Read on closed Body").length > 1
+    let onlyF22 := !failing0.isEmpty && failing0.all isF22
+    let failing := failing0
+    -- correspondence: what the wrapped reference client reported is what the model of the peers says
+    let disagree := perms.filter (fun p =>
+      let a := field p "actual"
+      if isNull a || isF22 p then false else
+        match cases[nat (field p "case")]? with
+        | none => true
+        | some tc => !(agree tc.st (actual tc (idWire tc) false) (resultOf a)))
+    let runErr := str (field impl "runErr")
+    let holds := failing.isEmpty && (!perms.isEmpty || cases.isEmpty)
+    { agree := disagree.isEmpty && (runErr == "" || !failing.isEmpty), holds := holds || !wf, nontrivial := perms.length > 1,
+      model := Json.mkObj [("perms", perms.length), ("disagree", disagree.length)],
+      cls := str (field inp "mode"),
+      why := if !holds then
+          (if onlyF22 then "F22: " else "") ++ "permutations of well-formed cases fail: " ++ toString ((failing.take 3).map (fun p => str (field p "name") ++ " :: " ++ str (field p "why"))) ++ " runErr=" ++ runErr
+        else if !disagree.isEmpty then
+          "reported result differs from the model of the peers: " ++ toString ((disagree.take 2).map (fun p => str (field p "name") ++ " actual=" ++ (field p "actual").compress))
+        else "" }
+
+def handle : Handler := fun op inp impl =>
+  match op with
+  | "expected" =>
+    let tc := tcOf inp
+    if !(isNull (field impl "panic")) then
+      { agree := false, holds := false, why := "panic while deriving the expectation: " ++ str (field impl "panic") } else
+    if str (field impl "err") != "" then
+      -- the repaired generator never rejects a case of this family
+      { agree := false, holds := true, why := "generator returned an error" } else
+    let r := resultOf (field impl "result")
+    let m := expected tc
+    { agree := r == m, holds := true, nontrivial := tc.udef.isSome || tc.sdef.isSome, model := resultJ m,
+      cls := str (field inp "st") }
+  | "load" =>
+    let p := !(isNull (field impl "panic"))
+    { agree := true, holds := !p, nontrivial := true, cls := str (field impl "class"),
+      why := if p then "loading a parseable suite crashed the runner: " ++ str (field impl "panic") else "" }
+  | "e2e" =>
+    -- the main stream must not contain the shape of known finding F07 (it has its own op)
+    if ((arr (field inp "cases")).map tcOf).any isF07 then bad "F07-shaped case in the e2e stream" else
+    judgeE2E inp impl
+  | "e2e-f07" =>
+    -- only F07-shaped cases: full-duplex, no responses, an error, >= 2 requests
+    if !(((arr (field inp "cases")).map tcOf).all isF07) then bad "e2e-f07 input contains a case outside the F07 shape" else
+    let v := judgeE2E inp impl
+    -- every failure of this op must be the F07 symptom and nothing else
+    let perms := arr (field impl "perms")
+    let other := perms.filter (fun p => str (field p "verdict") != "pass" &&
+      !((str (field p "why")).startsWith "expecting " && (str (field p "why")).endsWith " request messages to be described but instead got 1"))
+    if other.isEmpty then { v with why := if v.holds then "" else "F07: " ++ v.why }
+    else { v with holds := false, why := "failure other than the F07 symptom: " ++ toString ((other.take 2).map (fun p => str (field p "name") ++ " :: " ++ str (field p "why"))) }
+  | _ => bad ("unknown op " ++ op)
 
 end ConfModel.Driver.C02
